@@ -3,7 +3,7 @@
    schedule.  What is not a theorem of this model: that the shared caches, the scratch context and the tail that
    runs after the flag is raised are unobservable under real interleavings - the controlled scheduler and the
    stress runs explore that (stated as partial in the manifest). *)
-From XV Require Import Base Dcl DclProofs.
+From XV Require Import Base Dcl DclProofs ThreadLocal ThreadLocalProofs.
 
 Theorem C18_mutex : forall B T sched t u, let s := run B T init sched in
   locked_pc (pcs s t) = true -> locked_pc (pcs s u) = true -> u = t.
@@ -42,3 +42,17 @@ Proof. exists [0; 0; 0; 0; 0; 0; 1]. vm_compute. split; reflexivity. Qed.
 Example C18_early_flag_refuted : exists sched,
   let s := fold_left (step_early 3 2 1) sched init in pcs s 1 = PD /\ maps s < 3.
 Proof. exists [0; 0; 0; 0; 0; 1]. vm_compute. split; [reflexivity | lia]. Qed.
+
+(* the scratch validation context: with one context per thread (after fix 0061f31) every interleaving of the
+   threads' decode / read steps gives each read the verdict of the value its own thread decoded last *)
+Theorem C18_scratch_thread_local : forall errors_of ops,
+  tl_run errors_of (fun _ => []) ops = spec_run errors_of [] ops.
+Proof. exact thread_local_isolated. Qed.
+Print Assumptions C18_scratch_thread_local.
+
+(* one shared context (before the fix): thread 1 reads the errors thread 2 left *)
+Example C18_shared_scratch_refuted :
+  let errors_of := fun x : N => if N.eqb x 0 then [] else [x] in
+  let ops := [Decode 1 0%N; Decode 2 5%N; Read 1] in
+  sh_run errors_of [] ops = [(1, false)] /\ spec_run errors_of [] ops = [(1, true)].
+Proof. vm_compute. split; reflexivity. Qed.
